@@ -34,7 +34,7 @@ structure FrameAt (fuel : Nat) (prog : Prog) : Prop where
   list : ∀ env es vs env', evalList fuel prog env es = .ok (vs, env') → names env' = names env
   fields : ∀ env fs vs env', evalFields fuel prog env fs = .ok (vs, env') → names env' = names env
   arms : ∀ env v arms r env', evalArms fuel prog env v arms = .ok (r, env') → names env' = names env
-  path : ∀ env p steps env', evalPath fuel prog env p = .ok (steps, env') → names env' = names env
+  path : ∀ env cur p steps env', evalPath fuel prog env cur p = .ok (steps, env') → names env' = names env
   stmts : ∀ env ss v env', evalStmts fuel prog env ss = .ok (v, env') → ∃ pre, names env' = pre ++ names env
   stmt : ∀ env s v env', evalStmt fuel prog env s = .ok (v, env') → ∃ pre, names env' = pre ++ names env
   loop : ∀ env p vs body env', evalLoop fuel prog env p vs body = .ok env' → names env' = names env
@@ -58,9 +58,54 @@ theorem frame_succ (fuel : Nat) (prog : Prog) (ih : FrameAt fuel prog) : FrameAt
   · intro env v arms r env' h
     unfold evalArms at h
     grind [FrameAt, names_append]
-  · intro env p steps env' h
+  · intro env cur p steps env' h
     unfold evalPath at h
-    grind [FrameAt]
+    cases p with
+    | nil =>
+      simp only [Except.ok.injEq, Prod.mk.injEq] at h
+      obtain ⟨_, rfl⟩ := h; rfl
+    | index i rest =>
+      simp only at h
+      split at h
+      · simp at h
+      · rename_i n env1 hi
+        split at h
+        · simp at h
+        · split at h
+          · split at h
+            · simp at h
+            · split at h
+              · simp at h
+              · rename_i st2 env2 hp
+                simp only [Except.ok.injEq, Prod.mk.injEq] at h
+                obtain ⟨_, rfl⟩ := h
+                rw [ih.path _ _ _ _ _ hp, ih.expr _ _ _ _ hi]
+          · simp at h
+      · simp at h
+    | tup i rest =>
+      simp only at h
+      split at h
+      · split at h
+        · simp at h
+        · split at h
+          · simp at h
+          · rename_i st2 env2 hp
+            simp only [Except.ok.injEq, Prod.mk.injEq] at h
+            obtain ⟨_, rfl⟩ := h
+            exact ih.path _ _ _ _ _ hp
+      · simp at h
+    | fld f rest =>
+      simp only at h
+      split at h
+      · split at h
+        · simp at h
+        · split at h
+          · simp at h
+          · rename_i st2 env2 hp
+            simp only [Except.ok.injEq, Prod.mk.injEq] at h
+            obtain ⟨_, rfl⟩ := h
+            exact ih.path _ _ _ _ _ hp
+      · simp at h
   · intro env ss v env' h
     unfold evalStmts at h
     split at h
@@ -108,14 +153,15 @@ theorem frame_succ (fuel : Nat) (prog : Prog) (ih : FrameAt fuel prog) : FrameAt
       · rename_i v1 env1 he
         split at h
         · simp at h
-        · rename_i steps env2 hp
+        · rename_i old hold
           split at h
           · simp at h
-          · split at h
+          · rename_i steps env2 hp
+            split at h
             · simp at h
             · simp only [Except.ok.injEq, Prod.mk.injEq] at h
               obtain ⟨_, rfl⟩ := h
-              rw [names_set, ih.path _ _ _ _ hp, ih.expr _ _ _ _ he]
+              rw [names_set, ih.path _ _ _ _ _ hp, ih.expr _ _ _ _ he]
     | expr e =>
       refine ⟨[], ?_⟩
       simp only [List.nil_append]
